@@ -1419,6 +1419,10 @@ class Commands(BasePlugin, SynchronizedAndFirewalled):
             return format(_('The %q command has no help.'),
                           formatCommand(command))
 
+def _reloadDisabledCommands():
+    Commands._disabled = DisabledCommands()
+conf.supybot.commands.disabled.addCallback(_reloadDisabledCommands)
+
 class PluginMixin(BasePlugin, irclib.IrcCallback):
     public = True
     alwaysCall = ()
